@@ -27,6 +27,10 @@ package restorer
 //   F3 valid tree x{f, sub{g}, l -> f, h1 = h2 (hard links)}, top  with one
 //      pre-existing entry at every path position x {file, non-empty dir,
 //      symlink -> outside dir, symlink -> outside file, dangling symlink}
+//   F4 the valid tree restored partially through the select filter (what
+//      --include <one path> gives: ancestors are traversed, not selected) for
+//      5 paths x a pre-existing {non-empty dir, symlink -> outside dir / file /
+//      nothing / empty outside dir} at every position on the way to the path
 //   options: quick {always, always+delete+sparse, never+delete, if-newer,
 //      if-changed+delete}; thorough all of delete x overwrite(4) x sparse; in
 //      thorough F2 is additionally combined with a pre-existing target/x in
@@ -287,6 +291,7 @@ type verifC18Case struct {
 	key   string // case key = family + tree
 	nodes []verifC18Node
 	pres  []verifC18Pre
+	only  string // F4: restore only this snapshot path (include filter); "" = everything
 }
 
 func verifC18Cases(s verifC18Sandbox, thorough bool) []verifC18Case {
@@ -383,13 +388,23 @@ func verifC18Cases(s verifC18Sandbox, thorough bool) []verifC18Case {
 		pres := []verifC18Pre{filePre(pos), dirPre(pos), symPre(pos, "dir"), symPre(pos, "file"), symPre(pos, "ro"), symPre(pos, "nonexistent"), symPre(pos, "empty")}
 		cases = append(cases, verifC18Case{key: "F3|" + pos, nodes: valid, pres: pres})
 	}
+	// ---- F4: the valid tree restored partially (include filter selecting one path: its ancestors are
+	// traversed but not selected), pre-existing entries at every position on the way
+	for _, only := range []string{"/x/sub/g", "/x/f", "/x/sub", "/x/l", "/x/h2"} {
+		parts := strings.Split(strings.TrimPrefix(only, "/"), "/")
+		for i := 1; i <= len(parts); i++ {
+			pos := strings.Join(parts[:i], "/")
+			pres := []verifC18Pre{dirPre(pos), symPre(pos, "dir"), symPre(pos, "file"), symPre(pos, "nonexistent"), symPre(pos, "empty")}
+			cases = append(cases, verifC18Case{key: "F4|only=" + only + "|" + pos, nodes: valid, pres: pres, only: only})
+		}
+	}
 	return cases
 }
 
 func TestVerif_C18(t *testing.T) {
 	r := vh.Start(t, "C18")
 	defer r.Finish()
-	r.Rule("forged trees: F1 every (bad name x node type x position), F2 every sequence of 2 and 3 nodes named x over 9 node shapes, F3 a valid tree x every (path position x pre-existing entry kind); each x option set; one real RestoreTo per element; non-trivial = the tree contains a name the restorer must reject, a duplicate name, or the target contains a pre-existing entry at a restored path")
+	r.Rule("forged trees: F1 every (bad name x node type x position), F2 every sequence of 2 and 3 nodes named x over 9 node shapes, F3 a valid tree x every (path position x pre-existing entry kind), F4 the same tree restored partially (select filter for one path) x pre-existing entry at every ancestor position; each x option set; one real RestoreTo per element; non-trivial = the tree contains a name the restorer must reject, a duplicate name, or the target contains a pre-existing entry at a restored path")
 	r.Assume("restore runs as root", "the restore error handler records and continues, as cmd/restic's does", "pre-existing hard links between target and outside are excluded (shared inode)")
 
 	ctx := context.Background()
@@ -445,6 +460,15 @@ func TestVerif_C18(t *testing.T) {
 				pre.apply(t, s)
 				before := s.snapshot()
 				res := NewRestorer(repo, sn, Options{Overwrite: opt.ow, Delete: opt.del, Sparse: opt.sparse})
+				if c.only != "" {
+					// what cmd/restic's --include selection returns for a single absolute path pattern
+					only := c.only
+					res.SelectFilter = func(item string, isDir bool) (selectedForRestore bool, childMayBeSelected bool) {
+						selectedForRestore = item == only || strings.HasPrefix(item, only+"/")
+						childMayBeSelected = isDir && (selectedForRestore || strings.HasPrefix(only, item+"/") || item == "/")
+						return selectedForRestore, childMayBeSelected
+					}
+				}
 				nerr := 0
 				var firstErr string
 				res.Error = func(location string, err error) error {
